@@ -192,10 +192,16 @@ func (s *stubUp) ServeHTTP(w http.ResponseWriter, r *http.Request) {
 		end("complete")
 		return
 	}
-	// streaming phase: one chunk every 20 ms, flushed
+	// streaming phase: one chunk every 20 ms, flushed.  With sgate=<key> the stream goes on until the
+	// harness opens the gate (so it cannot end by itself before the harness acts, however slow the
+	// machine is), then [chunks] more chunks and a final END line; without it, [chunks] chunks and END.
 	n, _ := strconv.Atoi(q.Get("chunks"))
 	if n <= 0 {
 		n = 150
+	}
+	var gate chan struct{}
+	if key := q.Get("sgate"); key != "" {
+		gate = holdChan("up:" + key)
 	}
 	w.WriteHeader(200)
 	fl, _ := w.(http.Flusher)
@@ -204,7 +210,8 @@ func (s *stubUp) ServeHTTP(w http.ResponseWriter, r *http.Request) {
 		rec.headerAt = time.Now()
 		s.mu.Unlock()
 	}
-	for i := 0; i < n; i++ {
+	left := n
+	for i := 0; left > 0 && i < 30000; i++ {
 		if _, err := fmt.Fprintf(w, "{\"type\":\"ADDED\",\"object\":{\"n\":%d}}\n", i); err != nil {
 			end("ctx")
 			return
@@ -217,11 +224,28 @@ func (s *stubUp) ServeHTTP(w http.ResponseWriter, r *http.Request) {
 			rec.chunks = i + 1
 			s.mu.Unlock()
 		}
+		open := gate == nil
+		if gate != nil {
+			select {
+			case <-gate:
+				open = true
+			default:
+			}
+		}
+		if open {
+			left--
+		}
 		select {
 		case <-time.After(20 * time.Millisecond):
 		case <-r.Context().Done():
 			end("ctx")
 			return
+		}
+	}
+	if r.Context().Err() == nil {
+		_, _ = fmt.Fprintf(w, "{\"type\":\"END\"}\n")
+		if fl != nil {
+			fl.Flush()
 		}
 	}
 	end("complete")
